@@ -42,8 +42,8 @@ def Cfg.wf (C : Cfg) : Bool :=
 
 abbrev LState := List (Nat × Nat)   -- (lexeme, DFA state), ascending by lexeme
 
-def liveAt (d : Dfa) (q : Nat) : Bool := d.live.getD q false
-def accAt (d : Dfa) (q : Nat) : Bool := d.acc.getD q false
+def liveAt (d : Dfa) (q : Nat) : Bool := d.live[q]!
+def accAt (d : Dfa) (q : Nat) : Bool := d.acc[q]!
 
 def insertNat (x : Nat) : List Nat → List Nat
   | [] => [x]
@@ -103,21 +103,24 @@ def init (C : Cfg) : St :=
   let s0 := start C (allowedFor C row C.initialSkip)
   { lexs := [], rows := [row], al := possible s0, ls := s0, pending := false }
 
+/-- `scan` / `scan_skip_lexeme` with the lexeme set `S`: the new lexeme-set log, rows and the lexemes
+the lexer restarts on -/
+def scanSet (C : Cfg) (st : St) (S : List Nat) : Option (List (List Nat) × List (List Ey.Item) × List Nat) :=
+  match S.find? (fun l => (C.lx l).skip) with
+  | some l =>
+    -- `scan_skip_lexeme`: the row is copied, the lexer restarts on the same lexemes
+    -- (without the skip lexeme when it may occur only once)
+    some (st.lexs, st.rows, if (C.lx l).once then st.al.filter (fun x => some x != C.skipId) else st.al)
+  | none =>
+    let row := Ey.nextRow C.g st.rows S
+    if row.isEmpty then none else some (st.lexs ++ [S], st.rows ++ [row], allowedFor C row true)
+
 /-- `advance_parser` with the lexeme set `S`; `tb` is the byte that already belongs to the next
 lexeme (greedy end), `fuel` bounds the one nested call for a single-byte lexeme -/
 def advance (C : Cfg) (st : St) (S : List Nat) (tb : Option B) : Nat → Option St
   | 0 => none
   | fuel + 1 =>
-    let next : Option (List (List Nat) × List (List Ey.Item) × List Nat) :=
-      match S.find? (fun l => (C.lx l).skip) with
-      | some l =>
-        -- `scan_skip_lexeme`: the row is copied, the lexer restarts on the same lexemes
-        -- (without the skip lexeme when it may occur only once)
-        some (st.lexs, st.rows, if (C.lx l).once then st.al.filter (fun x => some x != C.skipId) else st.al)
-      | none =>
-        let row := Ey.nextRow C.g st.rows S
-        if row.isEmpty then none else some (st.lexs ++ [S], st.rows ++ [row], allowedFor C row true)
-    match next with
+    match scanSet C st S with
     | none => none
     | some (lexs, rows, al) =>
       let s0 := start C al
